@@ -166,3 +166,64 @@ Theorem C19_unrepaired_refuted :
   exists r n o f r' f' e, feature_unrepaired r n o f = (r', f', Error e) /\ r' <> r /\
                           get_handler [] r' n <> get_handler [] r n.
 Proof. exact unrepaired_not_atomic. Qed.
+
+(* ------------------------------------------------------------------ the two-phase API
+   server.feature(..) / command(..) / thread() only CREATE a decorator; the registration is its
+   APPLICATION.  For every interleaving of function definitions, decorator creations and
+   applications (Model.wop; any order, any number, decorators applied late, twice, never): *)
+Definition C19_two_phase_gen (G : wop -> Prop) : Prop :=
+  (* each name maps to at most one handler after every call of every interleaving *)
+  (forall xs,
+     Forall (fun p => let r := w_reg (fst p) in
+                      NoDup (akeys (features r)) /\ NoDup (akeys (commands r)) /\
+                      forall n e1 e2,
+                        (In (n, e1) (features r) -> In (n, e2) (features r) -> e1 = e2) /\
+                        (In (n, e1) (commands r) -> In (n, e2) (commands r) -> e1 = e2))
+            (wrun empty_world xs)) /\
+  (* a refused call leaves the registry, any function `obs` of it and the function objects alone *)
+  (forall (A : Type) (obs : registry -> A) xs,
+     Forall (fun t => let '(before, after, res) := t in
+                      is_error res = true ->
+                      w_reg after = w_reg before /\ w_fns after = w_fns before /\
+                      obs (w_reg after) = obs (w_reg before))
+            (wtriples empty_world (wrun empty_world xs))) /\
+  (* creating a decorator (or defining a function) is never refused and changes nothing: all
+     checks happen at application time *)
+  (forall xs,
+     Forall (fun p => let '(before, after, res, x) := p in
+                      match x with
+                      | WApply _ _ => True
+                      | _ => res = Ok /\ w_reg after = w_reg before
+                      end)
+            (combine (wtriples empty_world (wrun empty_world xs)) xs)) /\
+  (* servers of one process share nothing *)
+  (forall ws k x k', k' <> k -> nth_error (fst (mstep ws k x)) k' = nth_error ws k') /\
+  (* what is refused / what an accepted application does: the reference, call by call *)
+  (forall xs, Forall G xs -> map wview (wrun empty_world xs) = spec_wrun sw_empty xs).
+
+Theorem C19_two_phase : C19_two_phase_gen (fun x => wop_ok x = true).
+Proof.
+  unfold C19_two_phase_gen.
+  split; [exact world_at_most_one_handler|].
+  split; [intros A obs xs; apply world_history_atomic|].
+  split; [intro xs; apply world_creation_silent|].
+  split; [exact mstep_frame|].
+  intros xs H. apply (wrun_refines xs empty_world world_ok_empty).
+  apply forallb_forall. rewrite Forall_forall in H. exact H.
+Qed.
+Print Assumptions C19_two_phase.
+
+(* non-vacuity + the table-driven pattern: two decorators for the same command name are created
+   before either is applied; the second application is refused and the first handler stays *)
+Definition ex_interleaving : list wop :=
+  [ WDef fn1; WDef (mkfunc 2 false (First true ANone) false None);
+    WMake (DCommand hover_name); WMake (DCommand hover_name); WMake DThread;
+    WApply 0 0; WApply 1 1; WApply 2 0 ].
+
+Example C19_two_phase_nonvacuous :
+  forallb wop_ok ex_interleaving = true /\
+  map (fun p => is_error (snd p)) (wrun empty_world ex_interleaving) =
+    [false; false; false; false; false; false; true; false] /\
+  commands (w_reg (fst (last (wrun empty_world ex_interleaving) (empty_world, Ok)))) =
+    [(hover_name, mkentry 1 false false true)].
+Proof. vm_compute. repeat split; reflexivity. Qed.
